@@ -34,6 +34,22 @@ type hiddenT struct{ X int }
 
 type PtrImpl struct{ K int }
 
+// Other is an interface that does not include I's method; OtherV holds an Impl all the same.
+type Other interface{ Unrelated() }
+type Wider interface {
+	M() int
+	Extra()
+}
+type ImplBoth struct{ K int }
+
+func (ImplBoth) M() int     { return 6 }
+func (ImplBoth) Unrelated() {}
+func (ImplBoth) Extra()     {}
+
+var OtherV Other = ImplBoth{K: 4}
+var WiderV Wider = ImplBoth{K: 5}
+var AnyV interface{} = Impl{K: 6}
+
 type UPos struct {
 	A int
 	b int
@@ -218,6 +234,12 @@ func c13Atoms() map[string][]vexpr {
 	add("@I", vexpr{Expr: "@NotImpl{K: 2}", Iface: "@I", Class: "reject", Why: "does not implement", Kind: "ifacevalue-notimpl"})
 	add("@I", vexpr{Expr: "3", Iface: "@I", Class: "reject", Why: "does not implement", Kind: "ifacevalue-notimpl"})
 	add("interface{}", vexpr{Expr: "3", Iface: "interface{}", Kind: "ifacevalue-empty"})
+	// values of INTERFACE type: usable exactly when that interface type implements the target
+	add("@I", vexpr{Expr: "@OtherV", Iface: "@I", Class: "reject", Why: "the value's interface type lacks the target's method (the dynamic value would have it)", Kind: "ifacevalue-unrelated-interface"})
+	add("@I", vexpr{Expr: "@AnyV", Iface: "@I", Class: "reject", Why: "interface{} does not implement the target", Kind: "ifacevalue-empty-interface-value"})
+	add("@I", vexpr{Expr: "@WiderV", Iface: "@I", Kind: "ifacevalue-wider-interface"})
+	add("@I", vexpr{Expr: "@I(@WiderV)", Iface: "@I", Kind: "ifacevalue-converted-interface"})
+	add("@I", vexpr{Expr: "@Other(@OtherV)", Iface: "@I", Class: "reject", Why: "conversion to an unrelated interface type", Kind: "ifacevalue-converted-unrelated"})
 	add("@I", vexpr{Expr: "@F()", Iface: "@I", Class: "reject", Why: "function call (and does not implement)", Kind: "ifacevalue-call"})
 	add("@I", vexpr{Expr: "nil", Iface: "@I", Class: "reject", Why: "untyped nil does not implement", Kind: "ifacevalue-untyped-nil"})
 	add("interface{}", vexpr{Expr: "nil", Iface: "interface{}", Class: "reject", Why: "untyped nil has no type to declare the variable with", Kind: "ifacevalue-untyped-nil-any"})
